@@ -46,8 +46,10 @@ def decide(pid, tier, parts, level, meta):
             if need_native:
                 nr = p.native.sweep(tier)
                 log('[%s]   %s (bounded): %s %s (%d evaluations, %.1fs)' % (pid, nr.name, nr.status, nr.reason, nr.evaluations, nr.wall_s))
+                nr.for_parts = getattr(nr, 'for_parts', []) + [r.name]
                 nr.for_part = r.name
-                results.append(nr)
+                if nr not in results:
+                    results.append(nr)
         else:
             nr = p.sweep(tier)
             log('[%s]   %s (bounded): %s %s (%d evaluations, %.1fs)' % (pid, nr.name, nr.status, nr.reason, nr.evaluations, nr.wall_s))
@@ -67,7 +69,7 @@ def decide(pid, tier, parts, level, meta):
     for r in results:
         if r.kind != 'proof':
             continue
-        natives = [n for n in results if getattr(n, 'for_part', None) == r.name]
+        natives = [n for n in results if r.name in getattr(n, 'for_parts', [])]
         concrete = any(n.failures for n in natives)
         if r.status == 'violation':
             if concrete:
